@@ -154,6 +154,13 @@ def ofProto (secret : List Nat) (algo : Algo) (step digits : Nat) : Option Totp 
   | none => none
   | some d => some ⟨secret, step, Algo.ofProto algo, d⟩
 
+/-- `impl TryFrom<DbTotpV1> for Totp` (totp.rs:100-119): algorithm through the generated
+table, `value.digits.unwrap_or(6)` through `TotpDigits::try_from(u8)`; `none` = `Err(())`. -/
+def ofDb (key : List Nat) (algo : DbAlgo) (step : Nat) (digits : Option Nat) : Option Totp :=
+  match Digits.ofU8 (digits.getD dbDefaultDigits) with
+  | none => none
+  | some d => some ⟨key, step, Algo.ofDb algo, d⟩
+
 /-- The driver's batched form — one token, one time, many candidate codes — computing the
 two digests once.  `KanidmProofs.C29.verifyMany_eq_map`: it is `chals.map (verify t · secs)`. -/
 def verifyMany (t : Totp) (chals : List Nat) (secs : Nat) : List (Option Bool) :=
